@@ -10,7 +10,7 @@ from . import common
 from .common import Corr
 
 ID = "C13"
-LEAN_MODULES = ["TempestVerif.Props.C13"]
+LEAN_MODULES = ["TempestVerif.Props.C13", "TempestVerif.Props.C13LogLike", "TempestVerif.Props.C13Run", "TempestVerif.Props.C13Pipeline"]
 RULE = ("(a) dispatch: the real SamplerCore._get_distribute_func/_log_like for every pool setting (None, 0, 1, 2 (thorough: real "
         "process pool), bool, pool-like objects) x vectorize vs the model interpreting the dispatch table regenerated from source "
         "(which strategy is used, or an error). (b) transparency: seeded real runs with the same pointwise likelihood evaluated "
@@ -18,11 +18,43 @@ RULE = ("(a) dispatch: the real SamplerCore._get_distribute_func/_log_like for e
         "input order / pool=1 — histories, weights, evidence must be bit-identical (the model's C13_transparent). "
         "(c) calls: an instrumented likelihood counts evaluated points; after every iteration state['calls'] == counted == the "
         "model's accounting over the iteration sequence (warm-up / k steps). Non-trivial = strategy other than plain scalar map, "
-        "or an iteration sequence containing both warm-up and mutation.")
+        "or an iteration sequence containing both warm-up and mutation. "
+        "(d) loglike-assembly: the real SamplerCore._log_like on batches of 0-6 points whose per-point results are drawn from "
+        "{number, numpy scalar, int, -inf/nan, tuple or list with 1-3 blobs, 1-tuple, None, ragged, mixed} under every strategy "
+        "(serial, pool=0/1/True/negative, pool=int>1 with multiprocess.Pool replaced by a recording pool that evaluates in shuffled "
+        "order, reversed/shuffled/threaded/lazy/sized pool doubles, real ThreadPool and ThreadPoolExecutor, a newest-first executor, "
+        "vectorised) vs Model.LLEval.logLike run with the OBSERVED evaluation order as the pool's completion order: outcome class, "
+        "logl bits, blobs shape and cells, and the multiset of evaluated points must agree; the property's own oracle (values = serial "
+        "reference, evaluations = batch size) is checked on every case. Non-trivial = not (serial and all numbers). "
+        "(e) function-wrapper: FunctionWrapper built by Sampler from log_likelihood_args/kwargs in {None, empty, non-empty} called "
+        "directly and through _log_like under 4 strategies vs Model.LLEval.Wrapper. (f) evaluate-likelihood: "
+        "BaseMCMCRunner._evaluate_likelihood with / without blobs vs the model (counter increment, blobs handed on). "
+        "(g) whole-run: Sampler.run() to completion (n_particles 15/16, n_steps/n_max_steps in {1..3}x{2..6}, both kernels, blobs, a "
+        "likelihood with a -inf region so the warm-up replacement fires, every strategy), optionally resumed from a mid-run checkpoint "
+        "written by save_every (also with the `calls` entry removed, as in an old state file): per-iteration history of `calls`, the "
+        "row count of every batch handed to _log_like in order, and the instrumented likelihood's counter vs Model.CallsRun.runSampling "
+        "on the scripted instance. Non-trivial = contains warm-up and annealing iterations. "
+        "(h) pipeline-replay-under-strategies: C01's whole-pipeline trace replay (tape = pointwise likelihood values computed by the "
+        "harness) with the traced real sampler evaluating through a pool / vectorised strategy: the Lean pipeline model must reproduce "
+        "beta, ESS, logZ, resampled indices, accept masks and the committed batches (logl bit for bit).")
 MODELLED = ["a pool's map is assumed to return results in input order (contract of multiprocessing-style pools); the worker-side "
             "completion order is exercised (reversed/shuffled/threaded doubles) but a pool violating the contract is out of scope",
-            "a user's vectorised likelihood is assumed pointwise identical to its scalar form (hypothesis hvec)"]
-ASSUMPTIONS = ["likelihood is deterministic"]
+            "a user's vectorised likelihood is assumed pointwise identical to its scalar form (hypothesis hvec); its return value is "
+            "handed on unconverted (no float64 cast), which is part of that hypothesis",
+            "a pool is modelled as: every task of the batch completes exactly once, in an arbitrary order, and map returns the result "
+            "of task i in position i (Model.LLEval.poolMap; that this IS the serial map is proved, not assumed); pools that retry or drop "
+            "tasks are outside the model",
+            "blobs: plain dtypes only in the model (k cells per point, k = 1 squeezed); structured / sub-array / object dtypes are "
+            "C07's real-run coherence suite; np.array / float() conversions are the identity on the tokens the model sees",
+            "the numerical parts of the sampler are opaque functions in Model.CallsRun.Algo (they see states and likelihood values only); "
+            "that the real sampler has no other path to the likelihood or to the counter is discharged statically by the regenerated "
+            "source facts (C13_calls_frame, C13_source_one_evaluation_per_site) and dynamically by suite whole-run",
+            "dill round trip of the `calls` entry through save/load (C08's theorems and suites); exercised here by real resumed runs"]
+ASSUMPTIONS = ["likelihood is deterministic (a pure function of the point and the extra arguments)",
+               "neither the likelihood nor the pool draws from or reseeds numpy's global generator (the sampler's own stream is then the same "
+               "under every strategy; the pool doubles that randomise their evaluation order use private generators)",
+               "a pool's map evaluates the function exactly once per element and returns the results in input order (checked on every pool "
+               "double, on multiprocessing.pool.ThreadPool and on concurrent.futures executors in suites loglike-assembly / whole-run)"]
 
 
 def translators():
@@ -34,17 +66,39 @@ def _quiet():
     return contextlib.redirect_stdout(io.StringIO())
 
 
-class CountingLike:
-    """pointwise identical scalar / vectorised likelihood with an evaluation counter (thread-safe)"""
+TARGETS = ("gauss", "hole", "corner")
 
-    def __init__(self, blobs=False):
+
+class CountingLike:
+    """pointwise identical scalar / vectorised likelihood with an evaluation counter (thread-safe).  Targets:
+    `gauss` — interior Gaussian;  `hole` — a region of the prior has likelihood 0 (−inf), so the warm-up replacement branch fires;
+    `corner` — a narrow Gaussian in a corner of the prior cube, so proposals leave the cube through its hard boundary."""
+
+    def __init__(self, blobs=False, target="gauss"):
+        if target is True:
+            target = "hole"
+        elif target is False or target is None:
+            target = "gauss"
         self.n = 0
         self.blobs = blobs
+        self.target = target
         self.lock = threading.Lock()
+        if target == "hole":
+            self.f = self.f_hole
+        elif target == "corner":
+            self.f = self.f_corner
 
     @staticmethod
     def f(x):
         return -0.5 * float(np.sum((x - 0.3) ** 2)) * 2.5
+
+    @staticmethod
+    def f_hole(x):
+        return -np.inf if x[0] < -1.2 else -0.5 * float(np.sum((x - 0.3) ** 2)) * 2.5
+
+    @staticmethod
+    def f_corner(x):
+        return -0.5 * float(np.sum((x - 2.9) ** 2)) * 4.0
 
     def scalar(self, x):
         with self.lock:
@@ -99,6 +153,53 @@ class GeneratorPool:
         return (f(x) for x in xs)
 
 
+class MPLikePool:
+    """the API surface of multiprocessing.pool.Pool: `map` / `imap` keep input order, `imap_unordered` yields in completion order
+    (here: reversed), `map_async(...).get()` keeps input order; work is done newest-first"""
+    _processes = 3
+
+    def map(self, f, xs, chunksize=None):
+        xs = list(xs)
+        return list(reversed([f(x) for x in reversed(xs)]))
+
+    def imap(self, f, xs, chunksize=1):
+        return iter(self.map(f, xs))
+
+    def imap_unordered(self, f, xs, chunksize=1):
+        return iter([f(x) for x in reversed(list(xs))])
+
+    def map_async(self, f, xs, chunksize=None, callback=None, error_callback=None):
+        out = self.map(f, xs)
+
+        class _R:
+            def get(self, timeout=None):
+                return out
+
+            def ready(self):
+                return True
+
+            def wait(self, timeout=None):
+                return None
+        return _R()
+
+    def starmap(self, f, xs, chunksize=None):
+        return self.map(lambda a: f(*a), xs)
+
+    def apply_async(self, f, args=(), kwds=None, callback=None, error_callback=None):
+        out = f(*args, **(kwds or {}))
+
+        class _R:
+            def get(self, timeout=None):
+                return out
+        return _R()
+
+    def close(self):
+        pass
+
+    def join(self):
+        pass
+
+
 class SizedPool(ReversedPool):
     """a pool-like object that advertises its number of workers the way multiprocessing / schwimmbad / executor pools do
     (a dispatch that splits work per worker must still evaluate — and count — exactly the requested points)"""
@@ -150,8 +251,41 @@ def _thread_pool():
     return ThreadPool(3)
 
 
+class RecordingIntPool:
+    """stands in for `multiprocess.Pool` when `pool` is an int > 1 (the class is swapped in for the duration of a run): records
+    every construction and evaluates the batch in a shuffled order, returning results in input order"""
+    created = []
+
+    def __init__(self, k):
+        RecordingIntPool.created.append(k)
+        self.rng = np.random.RandomState(1000 + len(RecordingIntPool.created))     # private stream
+
+    def map(self, f, xs):
+        xs = list(xs)
+        out = [None] * len(xs)
+        for i in self.rng.permutation(len(xs)):
+            out[i] = f(xs[i])
+        return out
+
+
+@contextlib.contextmanager
+def int_pool_patched():
+    import multiprocess
+    RecordingIntPool.created = []
+    with common.patched(multiprocess, "Pool", RecordingIntPool):
+        yield RecordingIntPool.created
+
+
 STRATEGIES = {
     "scalar": dict(vectorize=False, pool=None),
+    "pool=2": dict(vectorize=False, pool=2),
+    "pool=3": dict(vectorize=False, pool=3),
+    "pool=7": dict(vectorize=False, pool=7),
+    "pool=True": dict(vectorize=False, pool=True),
+    "pool=-2": dict(vectorize=False, pool=-2),
+    "vector+pool=3": dict(vectorize=True, pool=3),
+    "mp-like": dict(vectorize=False, pool=MPLikePool),
+    "threadpool": dict(vectorize=False, pool=_thread_pool),
     "vector+sized": dict(vectorize=True, pool=SizedPool),
     "vector+threadpool": dict(vectorize=True, pool=_thread_pool),
     "sized": dict(vectorize=False, pool=SizedPool),
@@ -166,10 +300,15 @@ STRATEGIES = {
 }
 
 
-def _run(strategy, kernel, blobs, seed, n_iter=None, n_total=48):
+def _run(strategy, kernel, blobs, seed, n_iter=None, n_total=48, hole="gauss"):
+    with int_pool_patched():
+        return _run_inner(strategy, kernel, blobs, seed, n_iter, n_total, hole)
+
+
+def _run_inner(strategy, kernel, blobs, seed, n_iter=None, n_total=48, hole="gauss"):
     from tempest import Sampler
     st = STRATEGIES[strategy]
-    like = CountingLike(blobs)
+    like = CountingLike(blobs, hole)
     pool = st["pool"]
     if isinstance(pool, type) or callable(pool) and not hasattr(pool, "map"):
         pool = pool()
@@ -189,6 +328,7 @@ def _run(strategy, kernel, blobs, seed, n_iter=None, n_total=48):
             trace.append((float(cur["beta"]), int(cur["steps"]), int(cur["calls"]), like.n))
     if hasattr(pool, "terminate"):
         pool.terminate()
+        pool.join()
     elif hasattr(pool, "shutdown") and not isinstance(pool, NewestFirstExecutor):
         pool.shutdown(wait=False)
     st_ = s.state
@@ -201,29 +341,55 @@ def _run(strategy, kernel, blobs, seed, n_iter=None, n_total=48):
 def suite_dispatch(drv, tier):
     from tempest import Sampler
     c = Corr("dispatch-table", "exact")
-    pools = [("none", None), ("int:0", 0), ("int:1", 1), ("int:1", True), ("obj", ReversedPool()), ("obj", GeneratorPool()), ("obj", SizedPool())]
-    if tier == "thorough":
-        pools.append(("int:2", 2))
+
+    class NoMap:
+        pass
+    # (old model tag or None, new model tag, pool value)
+    pools = [("none", "none", None), ("int:0", "int:0", 0), ("int:1", "int:1", 1), ("int:1", "int:1", True), (None, "int:0", False),
+             (None, "int:-1", -1), (None, "int:-7", -7), (None, "int:2", 2), (None, "int:3", 3), (None, "int:64", 64),
+             (None, "int:1000000", 10 ** 6), ("obj", "obj:1", ReversedPool()), ("obj", "obj:1", GeneratorPool()), ("obj", "obj:1", SizedPool()),
+             (None, "obj:0", NoMap()), (None, "obj:0", 2.0), (None, "obj:0", "4"), (None, "obj:0", np.int64(3))]
     lines, impl = [], []
     for vec in (False, True):
-        for tag, pool in pools:
+        for old, new, pool in pools:
             like = CountingLike()
-            try:
-                s = Sampler(lambda u: u, like.vector if vec else like.scalar, 2, n_particles=4, clustering=False, vectorize=vec, pool=pool)
-                X = np.array([[0.1, 0.2], [0.3, 0.4], [0.5, 0.6]])
-                with warnings.catch_warnings():
-                    warnings.simplefilter("ignore")
-                    fn = s._core._get_distribute_func()
-                    l, b = s._core._log_like(X)
-                how = "direct" if vec else ("map" if fn is map else "poolMap")
-                # (with a real process pool the counter is advanced in the workers, not here)
-                ok_vals = np.array_equal(l, np.array([CountingLike.f(r) for r in X])) and (like.n == 3 or (isinstance(pool, int) and pool > 1))
-                if not ok_vals:
-                    how += ":wrong-values"
-            except Exception as e:  # noqa
-                how = "error"
-            lines.append(f"disp.how vec={int(vec)} pool={tag}")
-            impl.append(how)
+            with int_pool_patched() as created:
+                try:
+                    s = Sampler(lambda u: u, like.vector if vec else like.scalar, 2, n_particles=4, clustering=False, vectorize=vec, pool=pool)
+                    X = np.array([[0.1, 0.2], [0.3, 0.4], [0.5, 0.6]])
+                    with warnings.catch_warnings():
+                        warnings.simplefilter("ignore")
+                        l, b = s._core._log_like(X)
+                    how = "direct" if vec else ("map" if not created and not hasattr(pool, "map") else
+                                                (f"newPool:{created[0]}" if len(created) == 1 else ("objMap" if not created else f"pools{list(created)}")))
+                    ok_vals = np.array_equal(l, np.array([CountingLike.f(r) for r in X])) and like.n == 3 and b is None
+                    if not ok_vals:
+                        how += ":wrong-values"
+                except AttributeError:
+                    how = "error"
+                except Exception as e:  # noqa
+                    how = f"raised {type(e).__name__}"
+            for line in ([f"disp.how vec={int(vec)} pool={old}"] if old else []) + [f"disp.howV vec={int(vec)} pool={new}"]:
+                lines.append(line)
+                impl.append({"newPool": "poolMap", "objMap": "poolMap"}.get(how.split(":")[0], how) if line.startswith("disp.how ") else how)
+    if tier == "thorough":
+        # one real process pool (the counter is advanced in the workers, so only the values are compared)
+        like = CountingLike()
+        s = Sampler(lambda u: u, like.scalar, 2, n_particles=4, clustering=False, pool=2)
+        X = np.array([[0.1, 0.2], [0.3, 0.4], [0.5, 0.6]])
+        l, _ = s._core._log_like(X)
+        lines.append("disp.howV vec=0 pool=int:2")
+        impl.append("newPool:2" if np.array_equal(l, np.array([CountingLike.f(r) for r in X])) else "newPool:2:wrong-values")
+    # the quantifier's `vectorize x blobs` corner: rejected at construction (C18_reject_vectorize_blobs), so it cannot reach _log_like
+    try:
+        Sampler(lambda u: u, CountingLike().vector, 2, n_particles=4, clustering=False, vectorize=True, blobs_dtype="f8")
+        rejected = "accepted"
+    except ValueError as e:
+        rejected = "rejected" if "Cannot vectorize likelihood with blobs" in str(e) else f"ValueError {e}"
+    c.case("vectorize+blobs", True)
+    c.count("vectorize+blobs:" + rejected)
+    if rejected != "rejected":
+        c.disagree(input="Sampler(vectorize=True, blobs_dtype='f8')", impl=rejected, model="rejected (Props.C18.C18_reject_vectorize_blobs)")
     for line, i, m in zip(lines, impl, drv.batch(lines)):
         c.case(line + i, "none" not in line)
         c.count(i)
@@ -233,57 +399,83 @@ def suite_dispatch(drv, tier):
     return c
 
 
-def transparency_violations(cases):
+def _case_target(case):
+    t = case[3] if len(case) > 3 else "gauss"
+    return {True: "hole", False: "gauss", None: "gauss"}.get(t, t)
+
+
+def run_property_violations(cases, strategies=None, oracles=("calls", "transparency")):
+    """THE PROPERTY ORACLES, on the real code only (no model involved).  cases: (kernel, blobs, seed, target).
+      calls:         after every iteration state['calls'] == number of points at which the instrumented user likelihood was actually
+                     evaluated (vectorised batches count their rows), under every strategy;
+      transparency:  for the same seed the run under every strategy has the same histories / weights / evidence as under scalar
+                     evaluation (bit-identical fingerprints)."""
     bad = []
-    for kernel, blobs, seed in cases:
-        ref_fp, ref_trace = _run("scalar", kernel, blobs, seed)
-        for name in STRATEGIES:
-            if name == "scalar" or (name.startswith("vector") and blobs):
-                continue
+    for case in cases:
+        kernel, blobs, seed = case[:3]
+        target = _case_target(case)
+        names = [n for n in (strategies or STRATEGIES) if not (n.startswith("vector") and blobs)]
+        if "scalar" not in names:
+            names = ["scalar"] + names
+        names.sort(key=lambda n: n != "scalar")
+        ref = None
+        for name in names:
+            base = {"strategy": name, "kernel": kernel, "blobs": blobs, "seed": seed, "target": target}
             try:
-                fp, tr = _run(name, kernel, blobs, seed)
+                fp, trace = _run(name, kernel, blobs, seed, hole=target)
             except Exception as e:  # noqa
-                bad.append({"what": f"strategy `{name}` raised {type(e).__name__}: {e}", "strategy": name, "kernel": kernel, "blobs": blobs, "seed": seed})
+                if name != "scalar" and ref is not None and "transparency" in oracles:
+                    bad.append(dict(base, oracle="transparency", what=f"scalar evaluation runs, strategy `{name}` raised {type(e).__name__}: {e}"))
                 continue
-            if fp != ref_fp:
-                first = next((i for i, (a, b) in enumerate(zip(ref_trace, tr)) if a[:3] != b[:3]), None)
-                bad.append({"what": f"strategy `{name}` and scalar evaluation give different histories/weights/evidence for the same seed "
-                                    f"(first differing iteration: {first})", "strategy": name, "kernel": kernel, "blobs": blobs, "seed": seed})
+            if name == "scalar":
+                ref = (fp, trace)
+            if "calls" in oracles:
+                for k, (beta, steps, calls, counted) in enumerate(trace):
+                    if calls != counted:
+                        bad.append(dict(base, oracle="calls", what=f"strategy `{name}`, after iteration {k + 1}: state['calls']={calls} but the "
+                                        f"user's likelihood was actually evaluated at {counted} points"))
+                        break
+            if "transparency" in oracles and name != "scalar" and ref is not None and fp != ref[0]:
+                first = next((i for i, (x, y) in enumerate(zip(ref[1], trace)) if x[:3] != y[:3]), None)
+                bad.append(dict(base, oracle="transparency", what=f"strategy `{name}` and scalar evaluation give different histories/weights/"
+                                f"evidence for the same seed (first differing iteration: {first})"))
     return bad
 
 
-def calls_violations(drv, cases, corr=None):
-    bad = []
+def transparency_violations(cases, strategies=None):
+    return run_property_violations(cases, strategies, oracles=("transparency",))
+
+
+def calls_correspondence(drv, cases, corr):
+    """MODEL vs CODE (never a failing input by itself): the accounting model over the observed iteration sequence against
+    state['calls']; the adaptive step counts against the proved bounds; plus the property oracle, so that a violated property also
+    breaks this obligation"""
     lines, recs = [], []
     for name, kernel, blobs, seed in cases:
         try:
             _, trace = _run(name, kernel, blobs, seed)
         except Exception as e:  # noqa
-            bad.append({"what": f"run raised {type(e).__name__}: {e}", "strategy": name, "kernel": kernel, "blobs": blobs, "seed": seed})
+            corr.disagree(input=(name, kernel, blobs, seed), impl=f"run raised {type(e).__name__}: {e}", model="runs")
             continue
         ops = []
         for k, (beta, steps, calls, counted) in enumerate(trace):
             ops.append("w" if beta == 0.0 else f"m:{steps}")
             if beta != 0.0 and not (min(1 * 2, 2 * 2) <= steps <= max(1, 2 * 2)):     # n_steps=1, n_max_steps=2, d=2 in _run
-                bad.append({"what": f"iteration {k + 1}: {steps} accept/reject steps, outside the proved range [2, 4] (C13_steps_bounded_from_start)",
-                            "strategy": name, "kernel": kernel, "blobs": blobs, "seed": seed})
+                corr.disagree(input=(name, kernel, blobs, seed), impl=f"iteration {k + 1}: {steps} accept/reject steps",
+                              model="within [2, 4] (C13_steps_bounded_from_start)")
             lines.append(f"calls.run np=16 nw=16 ops={';'.join(ops)}")
             recs.append((name, kernel, blobs, seed, k, calls, counted, len(ops) > 1 and "w" in ops and any(o != "w" for o in ops)))
     for (name, kernel, blobs, seed, k, calls, counted, nontriv), line, ans in zip(recs, lines, drv.batch(lines)):
-        if corr is not None:
-            corr.case(line + name + kernel, nontriv or name != "scalar")
-            corr.count(name)
+        corr.case(line + name + kernel, nontriv or name != "scalar")
+        corr.count(name)
         toks = ans.split(" ")
         mcalls = int(toks[0]) if toks[0].isdigit() else None
-        if not (mcalls == calls == counted):
-            b = {"what": f"after iteration {k + 1}: state['calls']={calls}, likelihood actually evaluated at {counted} points, model accounting {ans}",
-                 "strategy": name, "kernel": kernel, "blobs": blobs, "seed": seed}
-            bad.append(b)
-            if corr is not None:
-                corr.disagree(input=line, impl={"calls": calls, "counted": counted}, model=ans, strategy=name)
-    if corr is not None and recs:
+        if mcalls != calls:
+            corr.disagree(input=line, impl={"calls": calls}, model=ans, strategy=name, kind="model-vs-code")
+        if calls != counted:
+            corr.disagree(input=line, impl={"calls": calls, "counted": counted}, model="calls == points evaluated", strategy=name, kind="property")
+    if recs:
         corr.sample({"op": lines[-1], "impl_calls": recs[-1][5], "counted": recs[-1][6]})
-    return bad
 
 
 def suite_steps(drv, tier):
@@ -324,41 +516,576 @@ def suite_steps(drv, tier):
     return c
 
 
+# ----------------------------------------------------------------------------- value level: _log_like under every strategy
+class _Shared:
+    """pools that are expensive to create are shared by all cases of a suite"""
+    tp = None
+    ex = None
+
+    @classmethod
+    def thread_pool(cls):
+        if cls.tp is None:
+            cls.tp = _thread_pool()
+        return cls.tp
+
+    @classmethod
+    def executor(cls):
+        if cls.ex is None:
+            cls.ex = _thread_executor()
+        return cls.ex
+
+    @classmethod
+    def close(cls):
+        if cls.tp is not None:
+            cls.tp.terminate()
+            cls.tp.join()
+            cls.tp = None
+        if cls.ex is not None:
+            cls.ex.shutdown(wait=False)
+            cls.ex = None
+
+
+# name -> (vectorize, pool factory, how the model is told the batch was evaluated)
+LL_STRATEGIES = {
+    "serial": (False, lambda: None, "map"),
+    "pool=0": (False, lambda: 0, "map"),
+    "pool=1": (False, lambda: 1, "map"),
+    "pool=True": (False, lambda: True, "map"),
+    "pool=-4": (False, lambda: -4, "map"),
+    "pool=2": (False, lambda: 2, "newPool:2"),
+    "pool=5": (False, lambda: 5, "newPool:5"),
+    "reversed": (False, ReversedPool, "objMap"),
+    "shuffled": (False, ShuffledPool, "objMap"),
+    "threaded": (False, ThreadedPool, "objMap"),
+    "generator": (False, GeneratorPool, "objMap"),
+    "sized": (False, SizedPool, "objMap"),
+    "mp-like": (False, MPLikePool, "objMap"),
+    "threadpool": (False, _Shared.thread_pool, "objMap"),
+    "executor-threads": (False, _Shared.executor, "objMap"),
+    "executor-newest-first": (False, NewestFirstExecutor, "objMap"),
+    "vector": (True, lambda: None, "direct"),
+    "vector+sized": (True, SizedPool, "direct"),
+    "vector+pool=4": (True, lambda: 4, "direct"),
+}
+
+
+def _gen_results(rng, n):
+    """per-point results of a batch of n points; returns (kind, [python objects])"""
+    def num():
+        v = rng.choice([rng.randint(-64, 64) / 8.0, rng.uniform(-50, 5), -0.0, 1e-300, -1e300])
+        return rng.choice([float(v), float(v), np.float64(v), (np.float32(v) if abs(v) < 1e30 else np.float64(v)), int(v) if float(v).is_integer() and abs(v) < 1e6 else float(v)])
+    kind = rng.choice(["vals", "vals", "vals-special", "blobs1", "blobs2", "blobs3", "blobs-list", "mixed-first-val", "mixed-first-blob",
+                       "one-tuples", "none", "ragged", "blob-then-one-tuple"])
+    if kind == "vals":
+        return kind, [num() for _ in range(n)]
+    if kind == "vals-special":
+        return kind, [rng.choice([num(), -np.inf, np.nan, True, np.inf]) for _ in range(n)]
+    if kind in ("blobs1", "blobs2", "blobs3"):
+        k = int(kind[-1])
+        return kind, [tuple([num()] + [rng.randint(-32, 32) / 4.0 for _ in range(k)]) for _ in range(n)]
+    if kind == "blobs-list":
+        k = rng.randint(1, 3)
+        return kind, [[num()] + [rng.randint(-32, 32) / 4.0 for _ in range(k)] for _ in range(n)]
+    if kind == "mixed-first-val":
+        out = [num() for _ in range(n)]
+        if n > 1:
+            out[rng.randrange(1, n)] = (num(), 1.5)
+        return kind, out
+    if kind == "mixed-first-blob":
+        out = [(num(), 2.5) for _ in range(n)]
+        if n > 1:
+            out[rng.randrange(1, n)] = num()
+        return kind, out
+    if kind == "one-tuples":
+        return kind, [(num(),) for _ in range(n)]
+    if kind == "none":
+        out = [num() for _ in range(n)]
+        if n:
+            out[rng.randrange(n)] = None
+        return kind, out
+    if kind == "ragged":
+        out = [(num(), 1.0, 2.0) for _ in range(n)]
+        if n > 1:
+            out[rng.randrange(1, n)] = (num(), 1.0)
+        return kind, out
+    out = [(num(), 3.0) for _ in range(n)]            # blob-then-one-tuple
+    if n > 1:
+        out[rng.randrange(1, n)] = (num(),)
+    return kind, out
+
+
+def _res_token(r):
+    if isinstance(r, (tuple, list)):
+        if len(r) == 0:
+            return "b"
+        return f"s:{common.f2hex(float(r[0]))}:{','.join(common.f2hex(float(b)) for b in r[1:])}"
+    if r is None:
+        return "b"
+    return f"v:{common.f2hex(float(r))}"
+
+
+def _ll_real(strategy, results, blobs_dtype):
+    """run the REAL _log_like on a batch whose point i returns results[i]; returns (outcome string in the model's format, log)"""
+    from tempest import Sampler
+    vec, factory, _how = LL_STRATEGIES[strategy]
+    n = len(results)
+    log, lock = [], threading.Lock()
+
+    def like(x):
+        i = int(x[0])
+        with lock:
+            log.append(i)
+        return results[i]
+
+    def like_vec(X):
+        with lock:
+            log.extend(int(r[0]) for r in X)
+        return np.array([float(results[int(r[0])]) for r in X])
+    X = np.array([[float(i), 0.5] for i in range(n)]).reshape(n, 2)
+    pool = factory()
+    with int_pool_patched() as created, warnings.catch_warnings():
+        warnings.simplefilter("ignore")
+        s = Sampler(lambda u: u, like_vec if vec else like, 2, n_particles=4, clustering=False, vectorize=vec, pool=pool,
+                    blobs_dtype=blobs_dtype)
+        try:
+            l, b = s._core._log_like(X)
+        except Exception as e:  # noqa
+            return "error", list(log), list(created), f"{type(e).__name__}: {e}"
+        created = list(created)
+    if not isinstance(l, np.ndarray) or l.dtype != np.float64 or l.shape != (n,):
+        return f"ok-but-logl-is {type(l).__name__} {getattr(l, 'dtype', None)} {getattr(l, 'shape', None)}", list(log), created, ""
+    if b is None:
+        bs = "none"
+    elif b.ndim == 1:
+        bs = "single:" + common.flist(b, lambda v: common.f2hex(float(v)))
+    elif b.ndim == 2:
+        bs = f"rows:{b.shape[1]}:" + "|".join(common.flist(row, lambda v: common.f2hex(float(v))) for row in b)
+    else:
+        bs = f"shape{b.shape}"
+    return f"ok logl={common.flist(l, common.f2hex)} blobs={bs}", list(log), created, ""
+
+
+def suite_assembly(drv, tier):
+    c = Corr("loglike-assembly", "exact (outcome class, logl bit patterns, blobs shape and cells, evaluated points)")
+    rng = common.rng_for("C13.assembly")
+    names = list(LL_STRATEGIES)
+    lines, recs = [], []
+    try:
+        for k in range(700 if tier == "quick" else 6000):
+            strategy = names[k % len(names)] if k < 4 * len(names) else rng.choice(names)
+            vec, _f, how = LL_STRATEGIES[strategy]
+            n = rng.choice([0, 1, 2, 3, 3, 4, 5, 6])
+            kind, results = _gen_results(rng, n)
+            if vec and kind not in ("vals", "vals-special"):
+                kind, results = "vals", [rng.randint(-64, 64) / 8.0 for _ in range(n)]
+            bd = rng.choice([None, "f8"]) if not vec else None
+            got, log, created, err = _ll_real(strategy, results, bd)
+            res = ";".join(_res_token(r) for r in results) if results else "-"
+            vtok = common.flist([float(r) for r in results], common.f2hex) if vec else "-"
+            sched = common.flist(log, str) if how in ("objMap",) or how.startswith("newPool") else "-"
+            lines.append(f"ll.eval how={how} sched={sched} res={res} vec={vtok}")
+            recs.append((strategy, kind, n, bd, got, log, created, err, results))
+        answers = drv.batch(lines)
+    finally:
+        _Shared.close()
+    for line, (strategy, kind, n, bd, got, log, created, err, results), ans in zip(lines, recs, answers):
+        nontrivial = not (strategy == "serial" and kind == "vals")
+        c.case((strategy, line, bd), nontrivial)
+        c.count("strategy:" + strategy)
+        c.count("results:" + kind)
+        c.count(f"n={n}")
+        c.count("outcome:" + ("error" if got == "error" else "ok"))
+        expect = got if got == "error" else f"{got} log={common.flist(log, str)}"
+        pools_expected = [int(strategy.split("=")[1])] if strategy.startswith("pool=") and strategy[5:].isdigit() and int(strategy[5:]) > 1 else []
+        if ans != expect:
+            c.disagree(input=line, impl=expect + (" " + err if err else ""), model=ans, strategy=strategy, blobs_dtype=bd)
+        elif got != "error" and sorted(log) != list(range(n)):
+            c.disagree(input=line, impl=f"evaluated at {sorted(log)}", model=f"C13_logLike_evaluates_batch: a permutation of 0..{n - 1}", strategy=strategy)
+        elif created != pools_expected:
+            c.disagree(input=line, impl=f"multiprocess.Pool constructed with {created}", model=f"C13_pools_created: {pools_expected}", strategy=strategy)
+        if nontrivial:
+            c.sample({"op": line, "strategy": strategy, "impl": expect, "model": ans})
+    return c
+
+
+def suite_wrapper(drv, tier):
+    """FunctionWrapper as built by Sampler, called directly and through _log_like under four strategies"""
+    from tempest import Sampler
+    c = Corr("function-wrapper", "exact (arguments the user's function receives; values through _log_like)")
+    lines, recs = [], []
+    arg_forms = [("none", None), ("-", []), ("a1", [1.5]), ("a2", [0.25, 2.0]), ("a1", (1.5,))]
+    kw_forms = [("none", None), ("-", {}), ("k1", {"scale": 2.0}), ("k2", {"scale": 0.5, "shift": 1.0})]
+    for (atag, a) in arg_forms:
+        for (ktag, kw) in kw_forms:
+            for via in ("direct", "serial", "reversed", "pool=3", "vector"):
+                seen = []
+
+                def user(x, *args, **kwargs):
+                    seen.append((tuple(float(v) for v in args), tuple(sorted((k, float(v)) for k, v in kwargs.items()))))
+                    base = -np.sum(np.atleast_2d(x) ** 2, axis=-1) * kwargs.get("scale", 1.0) + sum(args) + kwargs.get("shift", 0.0)
+                    return base if np.ndim(x) == 2 else float(base[0])
+                vec = via == "vector"
+                pool = {"reversed": ReversedPool(), "pool=3": 3}.get(via)
+                with int_pool_patched(), warnings.catch_warnings():
+                    warnings.simplefilter("ignore")
+                    s = Sampler(lambda u: u, user, 2, n_particles=4, clustering=False, vectorize=vec, pool=pool,
+                                log_likelihood_args=a, log_likelihood_kwargs=kw)
+                    X = np.array([[0.5, 0.25], [1.0, -0.5], [0.0, 2.0]])
+                    if via == "direct":
+                        vals = np.array([s._core.config.log_likelihood(x) for x in X])
+                    else:
+                        vals, _ = s._core._log_like(X)
+                want = np.array([user(x, *(a or []), **(kw or {})) for x in X])
+                n_user = len(seen) - 3
+                seen = seen[:n_user]
+                margs = "none" if a is None else common.flist([common.f2hex(v) for v in a], str)
+                mkw = "none" if kw is None else common.flist([f"{k}~{common.f2hex(v)}" for k, v in sorted(kw.items())], str)
+                lines.append(f"wrap.call args={margs} kwargs={mkw}")
+                recs.append((via, seen, vals, want, 1 if vec else 3))
+    for line, (via, seen, vals, want, ncalls), ans in zip(lines, recs, drv.batch(lines)):
+        c.case((line, via), "none" not in line or via != "direct")
+        c.count("via:" + via)
+        got = {f"args={common.flist([common.f2hex(v) for v in sa], str)} kwargs={common.flist([f'{k}~{common.f2hex(v)}' for k, v in sk], str)}"
+               for sa, sk in seen}
+        if got != {ans} or len(seen) != ncalls:
+            c.disagree(input=line, impl={"received": sorted(got), "user_calls": len(seen)}, model={"received": ans, "user_calls": ncalls}, via=via)
+        elif not np.array_equal(np.asarray(vals, dtype=float), want):
+            c.disagree(input=line, impl=[float(v) for v in np.asarray(vals, dtype=float)], model=[float(v) for v in want], via=via)
+        c.sample({"op": line, "via": via, "impl": sorted(got), "model": ans})
+    return c
+
+
+def suite_evaluate_likelihood(drv, tier):
+    import tempest.mcmc as mcmc
+    from tempest.modes import ModeStatistics
+    c = Corr("evaluate-likelihood", "exact")
+    rng = common.rng_for("C13.evlik")
+    lines, recs = [], []
+    for _ in range(60 if tier == "quick" else 600):
+        d, n = rng.randint(1, 3), rng.randint(1, 9)
+        have = rng.random() < 0.5
+        ll_blobs = rng.random() < 0.6
+        calls = []
+
+        def ll(x, _b=ll_blobs):
+            calls.append(len(x))
+            return np.arange(len(x), dtype=float), (np.ones(len(x)) if _b else None)
+        ms = ModeStatistics(np.zeros((1, d)), np.array([np.eye(d)]), np.full(1, 3.0))
+        kind = rng.choice([mcmc.RWMRunner, mcmc.TPCNRunner])
+        r = kind(np.full((n, d), 0.5), np.zeros((n, d)), np.zeros(n), (np.zeros(n) if have else None), np.zeros(n, dtype=int), 0.5, ms, ll,
+                 None, None, 1, 2, None, None, False)
+        r.n_calls = rng.randint(0, 1000)
+        n0 = r.n_calls
+        lp, bp = r._evaluate_likelihood(np.zeros((n, d)))
+        lines.append(f"evlik hb={int(have)} n={n0} w={n} blobs={int(ll_blobs)}")
+        recs.append((r.n_calls, bp is not None, calls, n, np.array_equal(lp, np.arange(n, dtype=float))))
+    for line, (n1, kept, calls, n, okl), ans in zip(lines, recs, drv.batch(lines)):
+        c.case(line, True)
+        c.count("blobs" if "hb=1" in line else "no-blobs")
+        if ans != f"{n1} {int(kept)}" or calls != [n] or not okl:
+            c.disagree(input=line, impl={"n_calls": n1, "blobs_handed_on": kept, "log_likelihood_calls": calls, "logl_unchanged": okl}, model=ans)
+    c.sample({"op": lines[0], "impl": recs[0][:2]})
+    return c
+
+
+# ----------------------------------------------------------------------------- whole runs: run() to completion, resumed runs
+def _full_run(spec, workdir):
+    """Sampler.run() to completion under spec; one record per process: history of `calls`, rows of every batch handed to
+    _log_like, the instrumented likelihood's counter at every commit and at the end"""
+    from tempest import Sampler
+    st = STRATEGIES[spec["strategy"]]
+
+    def make():
+        like = CountingLike(spec["blobs"], spec["target"])
+        pool = st["pool"]
+        if isinstance(pool, type) or callable(pool) and not hasattr(pool, "map"):
+            pool = pool()
+        s = Sampler(lambda u: 6.0 * u - 3.0, like.vector if st["vectorize"] else like.scalar, 2, n_particles=spec["n"], clustering=False,
+                    sample=spec["kernel"], resample=spec.get("resample", "mult"), vectorize=st["vectorize"], pool=pool,
+                    blobs_dtype=("f8" if spec["blobs"] else None), n_steps=spec["ns"], n_max_steps=spec["nm"],
+                    output_dir=workdir, output_label="c13")
+        sizes, counted_at = [], []
+        orig = s._core.mutator.log_likelihood
+
+        def rec(x):
+            sizes.append(len(x))
+            return orig(x)
+        s._core.mutator.log_likelihood = rec
+        orig_commit = s.state.commit_current_to_history
+
+        def commit(*a, **k):
+            counted_at.append(like.n)
+            return orig_commit(*a, **k)
+        s.state.commit_current_to_history = commit
+        return s, like, sizes, counted_at, pool
+
+    def finish(pool):
+        if hasattr(pool, "terminate"):
+            pool.terminate()
+            pool.join()
+        elif hasattr(pool, "shutdown") and not isinstance(pool, NewestFirstExecutor):
+            pool.shutdown(wait=False)
+
+    def record(s, like, sizes, counted_at, t0, start, base):
+        hist = s.state
+        return {"start": start, "t0": t0, "base": base, "beta": [float(b) for b in hist.get_history("beta")],
+                "steps": [int(v) for v in hist.get_history("steps")], "calls": [int(v) for v in hist.get_history("calls")],
+                "final_calls": int(hist.get_current("calls")), "counted": like.n, "counted_at": list(counted_at), "sizes": list(sizes)}
+    out = []
+    with int_pool_patched(), _quiet(), warnings.catch_warnings():
+        warnings.simplefilter("ignore")
+        s, like, sizes, counted_at, pool = make()
+        np.random.seed(spec["seed"])
+        s.run(n_total=spec["n_total"], progress=False, save_every=(spec["save_every"] if spec["resume"] else None))
+        finish(pool)
+        out.append(record(s, like, sizes, counted_at, 0, "fresh", 0))
+        if spec["resume"]:
+            import dill
+            import os
+            t = spec["save_every"]
+            path = os.path.join(workdir, f"c13_{t}.state")
+            if os.path.exists(path) and len(counted_at) >= t:
+                start = f"resume:{out[0]['calls'][t - 1]}"
+                base = counted_at[t - 1]           # points ACTUALLY evaluated by the first process up to the checkpoint
+                if spec["resume"] == "mid-nocalls":
+                    with open(path, "rb") as fh:
+                        d = dill.load(fh)
+                    d["_current"]["calls"] = None
+                    path = os.path.join(workdir, "old.state")
+                    with open(path, "wb") as fh:
+                        dill.dump(d, fh)
+                    start, base = "resume:none", None
+                s2, like2, sizes2, counted2, pool2 = make()
+                np.random.seed(spec["seed"] + 1)
+                s2.run(n_total=spec["n_total"], progress=False, resume_state_path=path)
+                finish(pool2)
+                out.append(record(s2, like2, sizes2, counted2, t, start, base))
+    return out
+
+
+def _kinds(rec):
+    return ["w" if b == 0.0 else f"m:{k}" for b, k in zip(rec["beta"], rec["steps"])][rec["t0"]:]
+
+
+def _whole_runs(specs):
+    import shutil
+    import tempfile
+    for spec in specs:
+        workdir = tempfile.mkdtemp(prefix="c13_")
+        try:
+            yield spec, _full_run(spec, workdir), None
+        except Exception as e:  # noqa
+            yield spec, [], e
+        finally:
+            shutil.rmtree(workdir, ignore_errors=True)
+
+
+def _whole_run_property(spec, recs):
+    """PROPERTY ORACLE on complete runs (real code only): at every commit and at the end, reported calls == points actually
+    evaluated — by this process plus, for a run resumed from a checkpoint, by the process that wrote it up to that checkpoint.
+    (A checkpoint whose `calls` entry was removed by the harness is not a statement of the property: skipped.)"""
+    bad = []
+    for rec in recs:
+        if rec["base"] is None:
+            continue
+        what = None
+        for k, c_at in enumerate(rec["counted_at"]):
+            if rec["t0"] + k < len(rec["calls"]) and rec["calls"][rec["t0"] + k] != rec["base"] + c_at:
+                what = (f"{rec['start'].split(':')[0]} run under `{spec['strategy']}`, iteration {rec['t0'] + k + 1}: recorded calls="
+                        f"{rec['calls'][rec['t0'] + k]} but the user's likelihood was actually evaluated at {rec['base'] + c_at} points "
+                        f"({rec['base']} before the checkpoint + {c_at} since)")
+                break
+        if what is None and rec["final_calls"] != rec["base"] + rec["counted"]:
+            what = (f"{rec['start'].split(':')[0]} run under `{spec['strategy']}` finished: state['calls']={rec['final_calls']} but the user's "
+                    f"likelihood was actually evaluated at {rec['base'] + rec['counted']} points")
+        if what:
+            bad.append(dict(spec, what=what, oracle="calls", level="whole-run"))
+    return bad
+
+
+def whole_run_property_violations(specs):
+    bad = []
+    for spec, recs, _err in _whole_runs(specs):
+        bad += _whole_run_property(spec, recs)
+    return bad
+
+
+def whole_run_correspondence(drv, specs, corr):
+    """MODEL vs CODE (never a failing input by itself): Model.CallsRun.runSampling on the scripted instance against the history of
+    `calls` and the rows of every batch handed to _log_like; the proved step bounds; plus the property oracle, so that a
+    violated property also breaks this obligation"""
+    lines, meta = [], []
+    for spec, recs, err in _whole_runs(specs):
+        if err is not None:
+            corr.disagree(input=spec, impl=f"run raised {type(err).__name__}: {err}", model="runs")
+            continue
+        for b in _whole_run_property(spec, recs):
+            corr.disagree(input=spec, impl=b["what"], model="calls == points evaluated (C13_run_calls_evaluated)", kind="property")
+        for rec in recs:
+            ops = _kinds(rec)
+            d = 2
+            for k, op in enumerate(ops):
+                if op != "w":
+                    steps = int(op[2:])
+                    if not (min(spec["ns"] * d, spec["nm"] * d) <= steps <= max(1, spec["nm"] * d)):
+                        corr.disagree(input=spec, impl=f"iteration {rec['t0'] + k + 1}: {steps} accept/reject steps",
+                                      model=f"within [{min(spec['ns'] * d, spec['nm'] * d)}, {max(1, spec['nm'] * d)}] (C13_mutation_steps)")
+                lines.append(f"crun np={spec['n']} nw={spec['n']} start={rec['start']} fuel={spec['nm'] * d + 2} ops={';'.join(ops[:k + 1])}")
+                meta.append((spec, rec, k, len(ops)))
+    for (spec, rec, k, nops), line, ans in zip(meta, lines, drv.batch(lines)):
+        toks = ans.split(" ")
+        mcalls = int(toks[0]) if toks[0].isdigit() else None
+        msizes = common.parse_list(toks[1], int) if len(toks) > 1 else None
+        calls_k = rec["calls"][rec["t0"] + k]
+        nb = len(msizes) if msizes is not None else 0
+        ops = line.split("ops=")[1]
+        corr.case((line, spec["strategy"], spec["kernel"]), "w" in ops and "m:" in ops)
+        corr.count("strategy:" + spec["strategy"])
+        corr.count("start:" + rec["start"].split(":")[0] + (":none" if rec["start"].endswith("none") else ""))
+        if k == nops - 1:
+            corr.count("runs")
+            corr.count("target:" + spec["target"])
+            corr.count(f"n={spec['n']} ns={spec['ns']} nm={spec['nm']}")
+        if mcalls != calls_k:
+            corr.disagree(input=line, impl={"calls": calls_k}, model=ans, spec=spec, kind="model-vs-code")
+        elif msizes != rec["sizes"][:nb] or (k == nops - 1 and len(rec["sizes"]) != nb):
+            corr.disagree(input=line, impl={"rows of the batches handed to _log_like": rec["sizes"][:nb + 2]}, model=ans, spec=spec,
+                          kind="model-vs-code")
+    if lines:
+        corr.sample({"op": lines[-1], "impl_calls": meta[-1][1]["final_calls"], "counted": meta[-1][1]["counted"], "spec": meta[-1][0]})
+
+
+def _whole_run_specs(rng, tier):
+    specs = []
+    base = [("scalar", "tpcn", False, "gauss", None), ("vector", "rwm", False, "hole", None), ("pool=3", "tpcn", True, "hole", "mid"),
+            ("shuffled", "rwm", True, "corner", "mid"), ("threaded", "tpcn", False, "hole", "mid-nocalls"), ("generator", "rwm", False, "gauss", None),
+            ("vector+sized", "tpcn", False, "corner", "mid"), ("executor-newest-first", "rwm", False, "hole", None),
+            ("pool=True", "tpcn", True, "gauss", "mid-nocalls"), ("sized", "rwm", False, "hole", "mid"), ("mp-like", "tpcn", True, "corner", "mid"),
+            ("threadpool", "rwm", True, "hole", None), ("pool=7", "rwm", False, "corner", None), ("scalar", "rwm", True, "corner", "mid")]
+    if tier == "thorough":
+        base += [(n, k, b, h, r) for n in STRATEGIES for k in ("tpcn", "rwm") for b in (False, True) for h in TARGETS
+                 for r in (None, "mid") if not (n.startswith("vector") and b)][::5]
+    for i, (strategy, kernel, blobs, target, resume) in enumerate(base):
+        ns = rng.choice([1, 1, 2, 3])
+        specs.append({"strategy": strategy, "kernel": kernel, "blobs": blobs, "target": target, "resume": resume, "seed": rng.randrange(2 ** 31),
+                      "n": rng.choice([15, 16, 12]), "ns": ns, "nm": rng.choice([ns, ns + 1, 2 * ns, 6]), "n_total": rng.choice([40, 64]),
+                      "save_every": rng.choice([1, 2, 3]), "resample": rng.choice(["mult", "syst"])})
+    return specs
+
+
+def suite_pipeline_strategies(drv, tier):
+    """the composed pipeline model (Model/Pipeline.lean) consumes a tape holding the POINTWISE likelihood values (computed by the
+    harness with the user's pure function); the real sampler producing the trace evaluates through a strategy.  Agreement of
+    beta / ESS / logZ / resampled indices / accept masks / committed batches is the conclusion of C13_pipeline_transparent
+    on real runs."""
+    from . import pipeline, c01
+    from tempest.tools import FunctionWrapper
+    c = Corr("pipeline-replay-under-strategies", "toleranced Float (decisions exact, near-ties counted; committed logl bit for bit)")
+    rng = common.rng_for("C13.pipeline")
+    names = ["reversed", "shuffled", "vector", "pool=3", "threaded", "mp-like", "executor-newest-first", "vector+sized", "generator", "pool=True",
+             "sized", "threadpool"]
+    recs, lines = [], []
+    for i in range(8 if tier == "quick" else 60):
+        name = names[i % len(names)]
+        st = STRATEGIES[name]
+        kernel, resample = [(k, r) for k in ("tpcn", "rwm") for r in ("syst", "mult")][i % 4]
+        d, n = rng.choice([1, 2, 3]), rng.choice([8, 16])
+        hole = rng.random() < 0.5
+        prior, like = c01.make_target(rng, d, hole)
+        seed = rng.randrange(2 ** 31)
+        cfgd = {"strategy": name, "kernel": kernel, "resample": resample, "d": d, "n": n, "seed": seed, "hole": hole}
+        with int_pool_patched():
+            np.random.seed(seed)
+            rec = pipeline.Recorder(kernel, resample, n, d, like, prior, ess_ratio=rng.choice([1.5, 2.0]))
+            cfg = rec.s._core.config
+            pool = st["pool"]
+            if isinstance(pool, type) or callable(pool) and not hasattr(pool, "map"):
+                pool = pool()
+            object.__setattr__(cfg, "pool", pool)          # the frozen dataclass is bypassed the way core.py itself does
+            if st["vectorize"]:
+                object.__setattr__(cfg, "vectorize", True)
+                object.__setattr__(cfg, "log_likelihood", FunctionWrapper(lambda X, _l=like: np.array([_l(x) for x in X]), None, None))
+            rec.s._core._initialize_fresh()
+            rec.s._core.n_total = 3 * n
+            try:
+                k = 0
+                while rec.s._core._not_termination() and k < 12:
+                    rec.iteration()
+                    k += 1
+            except Exception as e:  # noqa
+                c.disagree(input=cfgd, impl=f"raised {type(e).__name__}: {e}", model="runs")
+                continue
+        recs.append((rec, cfgd))
+        lines.append(rec.model_line())
+        c.case(cfgd, sum(1 for it in rec.impl if it["beta"] > 0) >= 1)
+        c.count("strategy:" + name)
+        c.count("iterations", len(rec.impl))
+        c.count("mcmc_steps", sum(len(it["masks"]) for it in rec.impl))
+    for (rec, cfgd), line, ans in zip(recs, lines, drv.batch(lines)):
+        prob, tie = pipeline.compare(rec, ans)
+        if tie:
+            c.near_ties += 1
+        if prob:
+            c.disagree(input=cfgd, impl=prob, model=ans[:300])
+        c.sample({"config": cfgd, "iterations": len(rec.impl), "betas": [round(it["beta"], 4) for it in rec.impl]})
+    return c
+
+
 def correspond(tier):
     drv = common.Driver()
     rng = common.rng_for("C13")
-    out = [suite_dispatch(drv, tier), suite_steps(drv, tier)]
-    c = Corr("strategy-transparency", "exact (bit-identical fingerprints of paired seeded runs)")
-    cases = [("tpcn", False, rng.randrange(2 ** 31)), ("rwm", True, rng.randrange(2 ** 31))]
+    out = [suite_dispatch(drv, tier), suite_steps(drv, tier), suite_assembly(drv, tier), suite_wrapper(drv, tier),
+           suite_evaluate_likelihood(drv, tier), suite_pipeline_strategies(drv, tier)]
+    c = Corr("strategy-transparency", "exact (bit-identical fingerprints of paired seeded runs; calls == points evaluated on every run)")
+    cases = [("tpcn", False, rng.randrange(2 ** 31), "gauss"), ("rwm", True, rng.randrange(2 ** 31), "hole"),
+             ("tpcn", False, rng.randrange(2 ** 31), "corner")]
     if tier == "thorough":
-        cases += [(k, b, rng.randrange(2 ** 31)) for k in ("tpcn", "rwm") for b in (False, True) for _ in range(4)]
+        cases += [(k, b, rng.randrange(2 ** 31), h) for k in ("tpcn", "rwm") for b in (False, True) for h in TARGETS]
     for case in cases:
         for name in STRATEGIES:
             if name != "scalar" and not (name.startswith("vector") and case[1]):
                 c.case((case, name), True)
                 c.count(name)
-        for b in transparency_violations([case]):
-            c.disagree(input=case, impl=b["what"], model="C13_transparent: identical values whatever the strategy")
+        c.count("target:" + case[3])
+        for b in run_property_violations([case]):
+            c.disagree(input=case, impl=b["what"], model="C13_run_strategy_independent / C13_run_calls_evaluated", kind="property")
     c.sample({"paired strategies": list(STRATEGIES), "case": cases[0]})
     out.append(c)
     c2 = Corr("call-accounting", "exact")
     ccases = [(n, k, b, rng.randrange(2 ** 31)) for n, k, b in
               [("scalar", "tpcn", False), ("vector", "rwm", False), ("threaded", "tpcn", True), ("pool=1", "rwm", True), ("generator", "tpcn", False),
                ("vector+sized", "tpcn", False), ("vector+threadpool", "rwm", False), ("sized", "rwm", True),
-               ("executor-newest-first", "tpcn", True)]]
+               ("executor-newest-first", "tpcn", True), ("pool=3", "rwm", True), ("vector+pool=3", "tpcn", False)]]
     if tier == "thorough":
         ccases += [(n, k, b, rng.randrange(2 ** 31)) for n in STRATEGIES for k in ("tpcn", "rwm") for b in (False, True) if not (n.startswith("vector") and b)]
-    calls_violations(drv, ccases, c2)
+    calls_correspondence(drv, ccases, c2)
     out.append(c2)
+    c3 = Corr("whole-run", "exact (history of `calls`, rows of every batch handed to _log_like, instrumented counter)")
+    whole_run_correspondence(drv, _whole_run_specs(rng, tier), c3)
+    out.append(c3)
     return out
 
 
 def search(tier, hints):
-    drv = common.Driver()
+    """Failing inputs of the PROPERTY on the real code — nothing else.  Only two oracles are used, neither involves the model:
+    (1) state['calls'] != number of points at which the instrumented user likelihood was actually evaluated;
+    (2) histories / weights / evidence of a run under some strategy differ from the run under scalar evaluation for the same seed.
+    A disagreement between model and code is NOT a failing input; it only triggers this exploration: every strategy (scalar,
+    vectorised, vectorised+pool, int pools of several sizes, pool doubles, real thread pools / executors) x both kernels x blobs x
+    targets {interior Gaussian, -inf region (warm-up replacement), narrow corner target (proposals leave the prior cube)}, then
+    complete runs incl. runs resumed from a checkpoint.  Nothing found => the verdict is `no-failing-input-found`."""
     rng = common.rng_for("C13.search")
-    found = calls_violations(drv, [(n, k, False, rng.randrange(2 ** 31)) for n in ("scalar", "vector", "reversed", "vector+sized", "vector+threadpool") for k in ("tpcn", "rwm")])
-    if len(found) < 3:
-        found += transparency_violations([(k, b, rng.randrange(2 ** 31)) for k in ("tpcn", "rwm") for b in (False, True)])
+    hinted = [h.get("strategy") or (h.get("spec") or {}).get("strategy") for h in hints if isinstance(h, dict)]
+    order = [n for n in STRATEGIES if n in hinted] + [n for n in STRATEGIES if n not in hinted]
+    found = []
+    for target in ("corner", "hole", "gauss"):
+        for kernel in ("tpcn", "rwm"):
+            for blobs in (False, True):
+                found += run_property_violations([(kernel, blobs, rng.randrange(2 ** 31), target)], strategies=order)
+                if len(found) >= 3:
+                    return found[:5]
+    specs = _whole_run_specs(rng, "quick")
+    found += whole_run_property_violations(specs)
     return found[:5]
 
 
@@ -367,8 +1094,10 @@ def replay(obj):
     if "witness" in f.get("replay", {}):
         from . import witnesses
         return witnesses.ALL[f["replay"]["witness"]]()
-    drv = common.Driver()
-    b = calls_violations(drv, [(f["strategy"], f["kernel"], f["blobs"], f["seed"])])
-    if not b and f["strategy"] != "scalar":
-        b = [x for x in transparency_violations([(f["kernel"], f["blobs"], f["seed"])]) if x["strategy"] == f["strategy"]]
+    if f.get("level") == "whole-run":
+        spec = {k: f[k] for k in ("strategy", "kernel", "blobs", "target", "resume", "seed", "n", "ns", "nm", "n_total", "save_every", "resample")}
+        b = whole_run_property_violations([spec])
+        return {"fails": bool(b), "detail": b[:1]}
+    b = [x for x in run_property_violations([(f["kernel"], f["blobs"], f["seed"], f.get("target", "gauss"))], strategies=[f["strategy"]])
+         if x["strategy"] == f["strategy"]]
     return {"fails": bool(b), "detail": b[:1]}
